@@ -328,6 +328,17 @@ fn run_batch(id: &str, tier: Tier, seed: u64, runs: u64, chunk: u64, workers: us
                                 let class = if sig == libc::SIGVTALRM { "nontermination_nodraw".to_string() } else { format!("signal_{}", sig) };
                                 hangs.push((r, class));
                                 skip.push(r);
+                                if hangs.len() >= 3 {
+                                    // killed workers are violations already: stop exploring, report them
+                                    pending.clear();
+                                    for (_, _, ch) in running.iter_mut() {
+                                        let _ = ch.kill();
+                                        let _ = ch.wait();
+                                    }
+                                    running.clear();
+                                    println!("BATCH-ABORTED after {} killed workers (hang or crash); reporting them", hangs.len());
+                                    break;
+                                }
                                 pending.push((c, skip));
                             }
                             _ => die(&format!("worker for chunk {} died with signal {} and cannot be attributed", c, sig)),
